@@ -342,8 +342,11 @@ func (d *c25) finalize(kind int, k int) {
 		applied := after > before
 		// ground truth is the disk: MPT.SaveChanges reports the outcome through a
 		// select over an error channel and a done channel that become ready together
-		if applied != (err == nil) {
-			d.tr.Probe("save_result_disagrees_with_disk")
+		switch {
+		case !applied && err == nil:
+			d.tr.Probe("save_returned_nil_for_failed_write")
+		case applied && err != nil:
+			d.tr.Probe("save_returned_error_for_applied_write")
 		}
 		if !applied {
 			break
@@ -878,9 +881,10 @@ func (d *c25) step(st sim.Step) {
 		}
 		before := d.partCount(l)
 		nBefore := len(t.m[l].items)
-		err, faulted := d.call(func() error {
+		var locs *partitions.RemoveLocs
+		err, faulted := d.call(func() (e error) {
 			if st.Op == "rmx" {
-				_, e := p.RemoveX(t.sc, id)
+				locs, e = p.RemoveX(t.sc, id)
 				return e
 			}
 			return p.Remove(t.sc, id)
@@ -891,6 +895,22 @@ func (d *c25) step(st sim.Step) {
 		d.tr.Event("%s l=%d id=%s -> %s", st.Op, l, short(id), got)
 		if !d.result(st.Op, l, got, want, faulted, err) {
 			return
+		}
+		if got == "ok" && st.Op == "rmx" {
+			// the replacement comes from the last partition; the hole is at or before it
+			if locs == nil || locs.Replace != before-1 || locs.From < 0 || locs.From > locs.Replace {
+				d.viol("result", "rmx/locations", "list %d: RemoveX reports %+v, the set of %d items with size %d ends in partition %d", l, locs, nBefore, d.psize[l], before-1)
+				return
+			}
+			var tail pItem
+			if _, e := tail.UnmarshalMsg(locs.ReplaceItem); e != nil {
+				d.viol("result", "rmx/replace-item", "list %d: replacement item does not decode: %v", l, e)
+				return
+			}
+			if w, ok := t.m[l].items[tail.ID]; !ok || !w.equal(tail) {
+				d.viol("result", "rmx/replace-item", "list %d: replacement item %v is not a member with that value", l, tail)
+				return
+			}
 		}
 		if got == "ok" {
 			delete(t.m[l].items, id)
@@ -958,6 +978,22 @@ func (d *c25) step(st sim.Step) {
 		}
 		whole := st.Int(0, 0)%3 != 2
 		idx := int(st.Int(1, 0)) % (d.partCount(l) + 1)
+		if st.Int(0, 0)%3 == 1 && d.partCount(l) > 1 {
+			// not part of the property: does returning true stop the whole iteration?
+			calls := 0
+			if e, _ := d.call(func() error {
+				return p.ForEach(t.sc, func(int, string, []byte) bool { calls++; return true })
+			}); e == nil {
+				if calls > 1 {
+					d.tr.Probe("foreach_stop_only_skips_to_next_partition")
+				} else {
+					d.tr.Probe("foreach_stop_ends_iteration")
+				}
+			}
+			if d.txn == nil {
+				return
+			}
+		}
 		err, faulted := d.call(func() error {
 			if whole {
 				return p.ForEach(t.sc, cb)
@@ -990,6 +1026,25 @@ func (d *c25) step(st sim.Step) {
 			d.viol("fullness", "live/partition-overfull", "list %d: partition %d shows %d items, size %d", l, idx, len(seen), d.psize[l])
 			return
 		}
+	case "repair":
+		p := d.obj(l)
+		if p == nil {
+			return
+		}
+		t := d.txn
+		err, faulted := d.call(func() error { return p.RepairPartitionLoc(t.sc) })
+		t.ops++
+		t.dirty[l] = true
+		d.tr.Event("repair l=%d err=%v", l, err != nil)
+		if err != nil {
+			if faulted {
+				d.abort("io-error")
+				return
+			}
+			d.viol("result", "repair/unexpected-error", "list %d: %v", l, err)
+			return
+		}
+		d.tr.Probe("repair_locations_called")
 	case "rand":
 		p := d.obj(l)
 		if p == nil {
@@ -1153,8 +1208,8 @@ func genC25(seed uint64, tier string) *sim.Plan {
 		if !grow {
 			wAdd, wRm = 4, 12
 		}
-		ops := []string{"add", "addx", "rm", "rmx", "upd", "updf", "get", "scan", "rand", "save", "reopen", "commit", "abort", "block", "dropblock", "final", "cold", "rderr"}
-		ws := []int{wAdd, wAdd / 4, wRm, wRm / 2, 3, 3, 3, 2, 2, 4, 2, 5, 2 * fAbort, 3, fDrop, 3, 2 * fCold, 3 * fRdErr}
+		ops := []string{"add", "addx", "rm", "rmx", "upd", "updf", "get", "scan", "rand", "save", "reopen", "commit", "abort", "block", "dropblock", "final", "cold", "rderr", "repair"}
+		ws := []int{wAdd, wAdd / 4, wRm, wRm / 2, 3, 3, 3, 2, 2, 4, 2, 5, 2 * fAbort, 3, fDrop, 3, 2 * fCold, 3 * fRdErr, 1}
 		op := ops[r.Pick(ws)]
 		st := sim.Step{Op: op, A: r.Intn(maxLists)}
 		sel := func() int64 { return int64(r.Pick([]int{4, 2, 3, 2, 3, 3, 3})) }
@@ -1192,8 +1247,8 @@ func init() {
 	sim.Register(&sim.Check{
 		ID: "C25", Title: "Partitions behave as a set under any operation sequence", World: "ledger",
 		Gen: genC25, Exec: execC25,
-		Quick: sim.Budget{Runs: 640, WallS: 60}, Thorough: sim.Budget{Runs: 60000, WallS: 1100},
-		LevelText: "seeded search over operation sequences on the exported partitions API (CreateIfNotExists/GetPartitions, Add/AddX, UpdateItem/Update, Remove/RemoveX from any position, Get, Exist, Size, ForEach/ForEachPart, GetRandomItems, Save) " +
+		Quick: sim.Budget{Runs: 480, WallS: 60}, Thorough: sim.Budget{Runs: 12000, WallS: 1100},
+		LevelText: "seeded search over operation sequences on the exported partitions API (CreateIfNotExists/GetPartitions, Add/AddX, UpdateItem/Update, Remove/RemoveX from any position, Get, Exist, Size, ForEach/ForEachPart, GetRandomItems, RepairPartitionLoc, Save) " +
 			"through a real StateContext on a real trie on the simulated disk, partition size from 1, removed ids reused, two named lists sharing ids; transaction commit and abort, several load/Save cycles per transaction, blocks persisted by the shipped SaveChanges, " +
 			"failed writes, process crash at a write index followed by a restart from the disk only, cold and warm state cache, injected read errors; after every step the API is compared with a Go map " +
 			"(Size, Exist, Get value and location, every member exactly once in the iteration, all partitions but the last full, random samples are distinct members); a clean batch is evidence, not proof",
